@@ -108,7 +108,19 @@ pub fn run(o: &Opts) {
       let pickg = |rng: &mut Rng| -> Option<Vec<String>> {
         if rng.chance(1, 2) { None } else { Some((0..1 + rng.below(2)).map(|_| rng.pick(&glob_pool).to_string()).collect()) }
       };
-      let r = Rule { id: format!("r{i}-{}", ["alpha", "beta", "gamma"][i % 3]), lang: rng.below(LANGS.len()), sev: rng.below(5), files: pickg(&mut rng), ignores: if rng.chance(1, 3) { pickg(&mut rng) } else { None } };
+      let mut r = Rule { id: format!("r{i}-{}", ["alpha", "beta", "gamma"][i % 3]), lang: rng.below(LANGS.len()), sev: rng.below(5), files: pickg(&mut rng), ignores: if rng.chance(1, 3) { pickg(&mut rng) } else { None } };
+      // complementary pairs: the globs one rule lists under `files` are the next rule's `ignores` (same language, so both
+      // see the same files), and the other way round
+      if i > 0 && i % 2 == 1 {
+        let prev: &Rule = &rules[i - 1];
+        if prev.files.is_some() || prev.ignores.is_some() {
+          r.lang = prev.lang;
+          r.files = prev.ignores.clone();
+          r.ignores = prev.files.clone();
+          if r.sev == 4 { r.sev = 0; }
+          out.count("rules:complementary-files-ignores-pair");
+        }
+      }
       let mut y = format!("id: {}\nlanguage: {}\nseverity: {}\nmessage: m\nrule:\n  pattern: foo($A)\n", r.id, LANGS[r.lang].0, SEVS[r.sev]);
       if let Some(f) = &r.files { y.push_str(&format!("files: {}\n", serde_json::to_string(f).unwrap())); }
       if let Some(f) = &r.ignores { y.push_str(&format!("ignores: {}\n", serde_json::to_string(f).unwrap())); }
